@@ -119,14 +119,14 @@ var messages = []message{
 		},
 		func(v any, b *proto.Buffer, rev int) { v.(*proto.Progress).EncodeAware(b, rev) },
 		func(v any, r *proto.Reader, rev int) error { return v.(*proto.Progress).DecodeAware(r, rev) }},
-	{"profile", false, true,
+	{"profile", true, true,
 		func() (any, []fld) {
 			m := &proto.Profile{}
 			return m, []fld{fUVar(&m.Rows), fUVar(&m.Blocks), fUVar(&m.Bytes), fBool(&m.AppliedLimit), fUVar(&m.RowsBeforeLimit), fBool(&m.CalculatedRowsBeforeLimit)}
 		},
 		func(v any, b *proto.Buffer, rev int) { v.(*proto.Profile).EncodeAware(b, rev) },
 		func(v any, r *proto.Reader, rev int) error { return v.(*proto.Profile).DecodeAware(r, rev) }},
-	{"exception", false, false,
+	{"exception", true, false,
 		func() (any, []fld) {
 			m := &proto.Exception{}
 			return m, []fld{
@@ -135,7 +135,7 @@ var messages = []message{
 		},
 		func(v any, b *proto.Buffer, rev int) { v.(*proto.Exception).EncodeAware(b, rev) },
 		func(v any, r *proto.Reader, rev int) error { return v.(*proto.Exception).DecodeAware(r, rev) }},
-	{"tablecolumns", false, true,
+	{"tablecolumns", true, true,
 		func() (any, []fld) { m := &proto.TableColumns{}; return m, []fld{fStr(&m.First), fStr(&m.Second)} },
 		func(v any, b *proto.Buffer, rev int) { v.(*proto.TableColumns).EncodeAware(b, rev) },
 		func(v any, r *proto.Reader, rev int) error { return v.(*proto.TableColumns).DecodeAware(r, rev) }},
